@@ -97,6 +97,10 @@ CHECKS = {
             {"name": "banstore", "module": "harness", "pkg": "./checks/c13", "test": "TestC13Store", "tags": "verif",
              "quick": {"checks": 1500, "shards": 16, "timeout": 600},
              "thorough": {"checks": 30000, "shards": 16, "timeout": 3600, "shrink": "60s"}},
+            {"name": "parse-fuzz", "module": "harness", "pkg": "./checks/c13", "test": "FuzzC13ParseIPNet", "fuzz": "FuzzC13ParseIPNet",
+             "tags": "verif", "thorough_only": True,
+             "quick": {"fuzztime": "10s", "timeout": 300},
+             "thorough": {"fuzztime": "90s", "timeout": 900}},
             {"name": "enforce", "module": "harness", "pkg": "./checks/c13", "test": "TestC13Enforce", "tags": "verif",
              "quick": {"checks": 25, "shards": 16, "timeout": 900, "regress_n": 3},
              "thorough": {"checks": 600, "shards": 16, "timeout": 5400, "shrink": "60s", "regress_n": 10}},
